@@ -6,6 +6,7 @@ BSubMod(a, b, m) == CHOOSE x \in {} : TRUE
 BPowMod(a, e, m) == CHOOSE x \in {} : TRUE
 BBit(a, i) == CHOOSE x \in {} : TRUE
 BBitLen(a) == CHOOSE x \in {} : TRUE
+BMod(a, m) == CHOOSE x \in {} : TRUE
 BFromBE(bytes) == CHOOSE x \in {} : TRUE
 BToBE32(a) == CHOOSE x \in {} : TRUE
 =======================================================================
